@@ -29,11 +29,77 @@ from ..rigs import sched_variants_rig as V
 
 WORKERS = 8
 
-QUICK_SCEN = ['lfs-prio', 'colo', 'gpu-share', 'blocked', 'invalid', 'nodes3']
+QUICK_SCEN = ['lfs-prio', 'colo', 'gpu-share', 'blocked', 'invalid', 'nodes3', 'exclusive']
 
 # requests whose ranks share GPUs (gpr in share units, see sched_rig.shape)
 RS_SHAPES = [P.S(4, 1, 1), P.S(6, 1, 1), P.S(5, 1, 1), P.S(4, 1, 1, 1, 0), P.S(3, 1, 1, 0, 1),
              P.S(4, 2, 1), P.S(2, 2, 1, prio=1), P.S(4, 1, 3), P.S(4, 1, 2)]
+
+# ---- GPU sets: pilots on which several multi-rank resource sets fit one node ----------
+# (variants only; the monitor's cost grows with cores x GPUs per node, so few and small)
+GS_LAYOUTS = [R.Layout(1, 8, 4, 8, 8, su=4), R.Layout(2, 8, 4, 6, 8, su=4),
+              R.Layout(2, 6, 3, 4, 6, su=2), R.Layout(1, 6, 3, 6, 6, su=2),
+              R.Layout(2, 4, 2, 4, 4, su=2)]
+
+
+def gs_shape(rng, lay):
+    '''ranks sharing GPUs (shares of a quarter / a half), with lfs / mem per rank; non-integral
+       requests above one GPU (1.25, 1.5, 2.5 GPUs per rank); rank counts which are no multiple
+       of the GPUs needed (3 x 0.5, 5 x 0.5, 7 x 0.25); some plain requests in between'''
+    su, k = lay.su, rng.random()
+    if k < 0.5:
+        gpr   = rng.choice([1, 2] if su == 4 else [1])
+        ranks = rng.choice([2, 2, 3, 4, 4, 5, 7] if gpr * 2 <= su else [2, 2, 3, 4, 5])
+        return P.S(ranks, rng.choice([1, 1, 1, 2]), gpr, rng.choice([0, 0, 1, 2]), rng.choice([0, 1, 1, 2, 2]),
+                   prio=rng.choice([0, 0, 1]))
+    if k < 0.8:
+        gpr   = rng.choice([su + su // 2, su + su // 2, 2 * su + su // 2] + ([su + 1] if su == 4 else []))
+        return P.S(rng.choice([1, 1, 2, 2, 3, 4]), rng.choice([1, 1, 2]), gpr, rng.choice([0, 0, 1]),
+                   rng.choice([0, 0, 1, 2]), prio=rng.choice([0, 0, 1]))
+    return P.S(rng.choice([1, 1, 2, 3]), rng.choice([1, 2]), rng.choice([0, 0, su, 2 * su]),
+               rng.choice([0, 1]), rng.choice([0, 1, 2]), prio=rng.choice([0, 1]))
+
+
+def gs_case(rng):
+    lay    = rng.choice(GS_LAYOUTS)
+    shapes = {'t%d' % (i + 1): gs_shape(rng, lay) for i in range(rng.randint(3, 6))}
+    return lay, shapes, [u for u in shapes if rng.random() < 0.15]
+
+
+# ---- exclusive colocate tags: more tag values than nodes, nodes filled up by the tagged tasks, so
+#      that a task with a new tag waits (alone) for a release on a pilot whose nodes are all tagged
+EX_LAYOUTS = [R.Layout(2, 2, 0, 0, 0), R.Layout(2, 3, 0, 0, 0), R.Layout(3, 2, 0, 0, 0), R.Layout(2, 4, 1, 2, 2)]
+
+
+def ex_case(rng):
+    lay    = rng.choice(EX_LAYOUTS)
+    tags   = ['a', 'b', 'c', 'd', 'e'][:rng.randint(lay.nn + 1, 5)]
+    shapes = {}
+    for i in range(rng.randint(lay.nn + 1, lay.nn + 4)):
+        full = rng.random() < 0.6           # a request which takes a whole node
+        shapes['t%d' % (i + 1)] = P.S(1, lay.nc if full else rng.choice([1, 1, 2]),
+                                      colo=rng.choice(tags) if rng.random() < 0.85 else 'none',
+                                      excl=rng.random() < 0.8, prio=rng.choice([0, 0, 1]))
+    return lay, shapes, [u for u in shapes if rng.random() < 0.1]
+
+
+# fixed ones (layout, shapes): all arrive at once, completions in uid order
+GS_FIXED = [
+    # sets of 2 / 4 / 3 ranks with memory and lfs, more than one of them per node
+    (R.Layout(1, 8, 4, 8, 8, su=4),
+     {'t1': P.S(2, 1, 2, 1, 2), 't2': P.S(4, 1, 1, 1, 2), 't3': P.S(2, 1, 2, 0, 2), 't4': P.S(3, 1, 2, 2, 1)}),
+    (R.Layout(2, 6, 3, 4, 6, su=2),
+     {'t1': P.S(2, 1, 1, 1, 2), 't2': P.S(2, 2, 1, 0, 2), 't3': P.S(3, 1, 1, 1, 1), 't4': P.S(2, 1, 1, 2, 2)}),
+    # 1.5 / 2.5 / 1.25 GPUs per rank
+    (R.Layout(2, 6, 3, 4, 6, su=2),
+     {'t1': P.S(2, 1, 3), 't2': P.S(1, 2, 3, 0, 1), 't3': P.S(1, 1, 5), 't4': P.S(2, 1, 3, 1, 1)}),
+    (R.Layout(2, 8, 4, 6, 8, su=4),
+     {'t1': P.S(2, 1, 6), 't2': P.S(2, 1, 5, 0, 1), 't3': P.S(1, 1, 10), 't4': P.S(4, 1, 6)}),
+    # rank counts which are no multiple of the GPUs needed
+    (R.Layout(2, 8, 4, 6, 8, su=4),
+     {'t1': P.S(3, 1, 2), 't2': P.S(5, 1, 2, 0, 1), 't3': P.S(7, 1, 1), 't4': P.S(3, 2, 2, 1, 0)}),
+]
+
 
 # environment schedules worth having every time (scenario, script)
 def directed(quick):
@@ -47,6 +113,14 @@ def directed(quick):
                               (8, ('complete', 't1')), (14, ('complete', 't3'))]))
     out.append(('mem-gpu', [(1, ('arrive', ['t1', 't2', 't3'])), (9, ('complete', 't1')),
                             (13, ('complete', 't3')), (17, ('complete', 't2'))]))
+    # exclusive colocate tags, one tag value more than nodes: the third tag shares a node
+    if any(x[0] == 'exclusive' for x in P.SCENARIOS):
+        for k in (8, 11, 14):
+            out.append(('exclusive', [(1, ('arrive', ['t1', 't2'])), (k, ('arrive', ['t3'])),
+                                      (k + 8, ('complete', 't1')), (k + 14, ('complete', 't2')),
+                                      (k + 20, ('complete', 't3'))]))
+            out.append(('exclusive', [(1, ('arrive', ['t1', 't2'])), (k, ('complete_bulk', ['t1', 't2'])),
+                                      (k + 8, ('arrive', ['t3']))]))
     return out
 
 
@@ -138,6 +212,36 @@ def _inputs(chk, tier, rng):
                 continue
             ad = _adapter(cname)
             sc = ad.scattered[0] if (len(ad.scattered) == 1 or rng.random() < 0.65) else ad.scattered[1]
+            add(cname, kind='random', seed=s, p_env=pe, layout=lay.__dict__, shapes=shapes,
+                cancelable=canc, scattered=sc)
+
+    # ---- GPU sets: the jsrun scheduler first of all, the others on a sample -------------
+    def gs_classes(i):
+        return ['ContinuousJsrun'] + ([V.REFERENCE.name, 'ContinuousOrdered'] if i % 4 == 0 else [])
+
+    for i, (lay, shapes) in enumerate(GS_FIXED):
+        uids   = sorted(shapes)
+        script = [(1, ('arrive', uids))] + [(12 + 9 * j, ('complete', u)) for j, u in enumerate(uids)]
+        for cname in gs_classes(i):
+            for sc in _adapter(cname).scattered:
+                add(cname, kind='tlc-behaviour', scenario='gpu-sets-%d' % i, script=script,
+                    layout=lay.__dict__, shapes=shapes, cancelable=[], scattered=sc)
+    for i in range(16 if quick else 500):
+        lay, shapes, canc = gs_case(rng)
+        s, pe = rng.randrange(10 ** 9), rng.choice([0.1, 0.25, 0.4])
+        for cname in gs_classes(i):
+            for sc in modes(_adapter(cname), i):
+                add(cname, kind='random', seed=s, p_env=pe, layout=lay.__dict__, shapes=shapes,
+                    cancelable=canc, scattered=sc)
+
+    # ---- exclusive colocate tags (Continuous' rule, copied by the jsrun scheduler) -------
+    for i in range(12 if quick else 300):
+        lay, shapes, canc = ex_case(rng)
+        s, pe = rng.randrange(10 ** 9), rng.choice([0.1, 0.25])
+        for cname in ['ContinuousJsrun', V.REFERENCE.name] + (['ContinuousReconfig'] if i % 4 == 0 else []):
+            ad = _adapter(cname)
+            # mostly scattered: only there the monitor asks for 'alone starts' of a jsrun task
+            sc = ad.scattered[0] if i % 4 else ad.scattered[-1]
             add(cname, kind='random', seed=s, p_env=pe, layout=lay.__dict__, shapes=shapes,
                 cancelable=canc, scattered=sc)
     return inputs
@@ -251,9 +355,10 @@ def run(chk, tier, seed):
         'variant schedulers: same fabric assumptions as the sched part (FIFO lossless queues, '
         'single-threaded loop, cancel steps at schedule points); application-supplied slots are '
         'not driven here (base class code, sched part)',
-        'ContinuousJsrun: a resource set is projected rank by rank (cores per rank, shares packed '
-        'first-fit onto the GPUs of the set); requests of 1.5 GPUs and the like are rounded up by '
-        'the adapter']
+        'ContinuousJsrun: a resource set is projected rank by rank (cores per rank, shares below one '
+        'GPU packed first-fit onto the GPUs of the set, every rank of a multi-rank set holding the lfs / '
+        'mem it asked for); non-integral requests above one GPU (1.5) are judged set by set against the '
+        'request folded into gcd(ranks, ceil(ranks x gpus_per_rank)) equal sets']
 
 
 def replay(chk, obj):
